@@ -41,14 +41,17 @@ from harness.props import c01
 
 LEVEL = "proof"
 THEOREMS = ["C02_snapshot_read", "C02_read_in_progress", "C02_api_single_resolution", "C02_snapshot_read_needs_single_resolution",
-            "C02_monotone", "C02_txn_atomic"]
+            "C02_monotone", "C02_txn_atomic", "C02_retry_whole_queue"]
 MANIFEST_ENTRY = {
     "level_text": "proved in Coq for every interleaving of any number of read calls with writers that commit, fail, are interrupted, "
                   "crash or roll back: a read call that returned resolved the pointer at one instant between its start and its end, "
                   "none of its file reads failed, and the files it read are exactly those of the version current at that instant (so "
                   "its rows are that snapshot's rows, for any write-once file contents) (C02_snapshot_read, C02_read_in_progress); a "
                   "call started after another returned never resolves an earlier index (C02_monotone); the operations visible after i "
-                  "flips are the initial ones plus the transactions of exactly those flips, none twice (C02_txn_atomic).  The two code "
+                  "flips are the initial ones plus the transactions of exactly those flips, none twice (C02_txn_atomic); every attempt "
+                  "of a retried transaction hands the commit protocol its whole operation queue -- every appended file, every path to "
+                  "delete, the largest cutoff, nothing else -- over the regenerated partition of Transaction.commit, with 'rebuilt in "
+                  "every attempt' and 'not edited afterwards' counted on the source (C02_retry_whole_queue).  The two code "
                   "facts the model rests on are COUNTED on the source on every run (GenReadRes.v): every read API resolves the "
                   "pointer exactly once (C02_api_single_resolution; with two resolutions the statement is refuted: "
                   "C02_snapshot_read_needs_single_resolution) and one attempt of Transaction.commit reaches the commit protocol "
@@ -349,7 +352,7 @@ def run(ctx) -> None:
                 "file reads, all writer protocol steps); bounded-preemption enumeration + random; distinct = executed schedule")
     ctx.trusted_base += ["harness/lib/sched.py, protocol.py (per-flip table content recorded by an independent reader)"]
     ctx.assumptions += ["no garbage collection concurrent with readers (C05/C06)"]
-    ctx.proofs(THEOREMS, gen_files=["GenCommit.v", "GenReadRes.v"])
+    ctx.proofs(THEOREMS, gen_files=["GenCommit.v", "GenReadRes.v", "GenFileOps.v"])
     ctx.allow_axioms([])
     # durability is not this property's subject (C03 / C16) and no fault is injected into fsync here: the ~16 fsyncs of every
     # commit are skipped for the duration of the schedules (a quarter of the run time), visibility between actors is unaffected
